@@ -397,11 +397,13 @@ impl CodegenContext {
                                 && existing.data != symbol.data
                                 && existing.read_only())
                         {
-                            let span = symbol.span.expect("no span provided");
-                            return Err(Diagnostic::error()
-                                .with_message(format!("cannot redefine symbol: {}", &path))
-                                .with_labels(vec![span.to_label()])
-                                .into());
+                            // Automatically generated symbols (e.g. 'segments.<name>.start') do not have a span
+                            let mut diag = Diagnostic::error()
+                                .with_message(format!("cannot redefine symbol: {}", &path));
+                            if let Some(span) = symbol.span {
+                                diag = diag.with_labels(vec![span.to_label()]);
+                            }
+                            return Err(diag.into());
                         }
 
                         // If the symbol already existed but with a different value,
@@ -1559,7 +1561,10 @@ pub fn codegen(
                 errors = e.with_code_map(&ctx.tree.code_map);
             }
         }
-        ctx.after_pass().expect("Could not finalize pass");
+        if let Err(e) = ctx.after_pass() {
+            // e.g. a user-defined symbol that clashes with an automatically generated one
+            errors = e.with_code_map(&ctx.tree.code_map);
+        }
 
         // Verification seam: report the completed pass to an observer, which may stop the loop
         #[cfg(mos_verif)]
